@@ -258,7 +258,10 @@ class C15(Check):
                     "pure expression trees (precedence workhorse: every binary/unary/postfix operator, in/!in, ternary, lambdas, ~45 prototype methods "
                     "and System functions), the same generators with 12% type chaos (ill-typed stream), deep nesting (parentheses, brackets, unary, "
                     "left/right operator chains, member chains, dictionary literals, immediately-invoked lambdas, recursion; depths 5..310 around every "
-                    "boundary, 700 quick / 5000 thorough), each printed minimally per the generated precedence table and fully parenthesised, evaluated "
+                    "boundary, 700 quick / 5000 thorough), three themed families checked by spec clauses against the reference's answer (loops of up to 400 "
+                    "CAUGHT exceptions of 8 kinds followed by nested expressions: depth errors only beyond real nesting 300; use() closures called "
+                    "2-4 times that modify captured variables/locals or recurse through an argument: per-call copies; array - array over mixed element "
+                    "types: never raises), each printed minimally per the generated precedence table and fully parenthesised, evaluated "
                     "3x in forked children; plus hostile texts (token/byte mutations of generated programs, arbitrary byte strings). evaluations = "
                     "3 x programs + hostile texts; non-trivial = programs with more than 6 AST tokens whose model outcome was compared (value or script error)")
         raw = open(save, errors="replace").read().splitlines()
@@ -285,8 +288,9 @@ class C15(Check):
                 clause = kv.get("clause", kv.get("what", "?"))
                 if kind == "MISMATCH" and n_corr >= 3:
                     continue
-                sig = (clause, re.sub(r".*(crash:sig=\d+|timeout).*", r"\1", case.split(" | ")[-1]) if kind == "SPECFAIL" else "")
-                if kind == "SPECFAIL" and len([k for k in seen if k[0] == sig]) >= 5:
+                m_sig = re.search(r"crash:sig=\d+|timeout", case.split(" | ")[-1]) if kind == "SPECFAIL" else None
+                sig = (clause, m_sig.group(0) if m_sig else "")
+                if kind == "SPECFAIL" and len([k for k in seen if k[0] == sig]) >= (5 if sig[1] else 2):
                     continue
 
                 def still(cand, kind=kind, clause=clause):
